@@ -21,6 +21,7 @@ import TshVerif.Lemmas.SemBCtl
 import TshVerif.Lemmas.SemBLoop
 import TshVerif.Lemmas.SemBDet
 import TshVerif.Lemmas.SemBLabels
+import TshVerif.Lemmas.SemBLinesComplete
 
 namespace Tsh.C05S
 open Tsh Tsh.Tr Tsh.Batch Tsh.Sem Tsh.SemB
@@ -321,6 +322,14 @@ theorem batch_lines_outcome_unique (p : Program) (hf : Src.fragStmts p = true) (
     exact ⟨h1.symm, by rw [← eo, h2]⟩
   · obtain ⟨h1, h2⟩ := LRun.det (hexit k ho) hl
     exact ⟨h1.symm, by rw [← eo, h2]⟩
+
+/-- **The line-level semantics is exactly what the line interpreter computes.**  `LRun ls rest c o c'` holds if and only if
+    `lrun ls fuel rest c` answers `(o, c')` for some amount of fuel (soundness `lrun_sound`, completeness `lrun_complete`,
+    fuel monotone `lrun_mono`).  The relation of `batch_script_lines_preserve_scalar_semantics` is therefore not an extra
+    trusted definition next to the executable one that the checks compare with lib/cmdsim.py: they are the same thing. -/
+theorem line_semantics_is_what_lrun_computes (whole rest : List BLine) (c : Cfg) (o : Out) (c' : Cfg) :
+    LRun whole rest c o c' ↔ ∃ fuel, lrun whole fuel rest c = some (o, c') :=
+  ⟨lrun_complete, fun ⟨f, h⟩ => lrun_sound whole f rest c o c' h⟩
 
 /-! non-vacuity: a program with a nested loop, `break`, `continue`, an if / else-if / else chain and a panic is in the fragment, runs in
     the source semantics, and its script runs in the line-level machine of `Sem/Cmd` to the same printed lines and exit code -/
